@@ -57,6 +57,7 @@ def strategy(tier):
         "ext_modules": st.booleans(),
         "headers": st.one_of(st.none(), st.lists(st.sampled_from(HEADER_POOL), min_size=1, max_size=10, unique=True)),
         "pick": st.integers(0, 50),
+        "symlink": st.sampled_from([False, False, True]),
     })
 
 
@@ -171,6 +172,11 @@ def evaluate(case):
             os.makedirs(os.path.dirname(p), exist_ok=True)
             with open(p, "wb") as f:
                 f.write(R.render(mc["module"], mc["layout"]).encode("utf-8"))
+        deep = [rel for rel, _ in files if "/" in rel]
+        if case.get("symlink") and deep and not lone:
+            # zz_link.cmake in the input root points at a module further down: its title derives from where the LINK is
+            os.symlink(os.path.join(inp, deep[0]), os.path.join(inp, "zz_link.cmake"))
+            files = files + [("zz_link.cmake", dict(files)[deep[0]])]
         cfg = sb.path("settings.yaml")
         with open(cfg, "w", encoding="utf-8") as f:
             f.write("input:\n  auto_exclude_directories_without_cmake: false\nrst:\n")
